@@ -3,6 +3,7 @@ package e6resource
 import (
 	"fmt"
 	"sort"
+	"strings"
 
 	"github.com/mfcochauxlaberge/jsonapi"
 
@@ -94,6 +95,27 @@ func runC18(t *core.Tape, st *core.Stats) *core.Violation {
 	src, p, err := materialise(rs, !srcSoft)
 
 	if srcSoft && p == nil && err == nil && t.Bool(1, 4) {
+		// a soft type written by hand: its one-way relationships do not say FromType
+		p = core.Call(func() {
+			var ht jsonapi.Type
+
+			if ht, err = ts.SoftType(); err == nil {
+				for _, r := range ts.Rels {
+					if r.ToName == "" {
+						jr := ht.Rels[r.Name]
+						jr.FromType = ""
+						ht.Rels[r.Name] = jr
+					}
+				}
+
+				src = rs.Soft(ht)
+			}
+		})
+
+		st.Inc("probe:soft-type-with-relationships-lacking-FromType")
+	}
+
+	if srcSoft && p == nil && err == nil && t.Bool(1, 4) {
 		// a soft resource whose type was built from a struct (it carries a NewFunc)
 		p = core.Call(func() {
 			var bt jsonapi.Type
@@ -178,6 +200,13 @@ func runC18(t *core.Tape, st *core.Stats) *core.Violation {
 
 			if got != before {
 				return viol(p18, "copy-equals-source", implName(from.soft)+".Copy", copyDiffClass(from.res, d), "Copy() of the %s differs from it\n    source: %s\n    copy:   %s", from.name, before, got)
+			}
+
+			// "the same ... fields": the definitions of the fields too, member for member
+			var sd, cd string
+
+			if p := core.Call(func() { sd, cd = fieldDefs(from.res), fieldDefs(d) }); p == nil && sd != cd {
+				return viol(p18, "copy-equals-source", implName(from.soft)+".Copy", "field-definitions", "the fields of the copy are not defined like those of the %s\n    source: %s\n    copy:   %s", from.name, sd, cd)
 			}
 		}
 
@@ -574,6 +603,25 @@ func mutate(t *core.Tape, st *core.Stats, ts *world.TypeSpec, s *side) (desc, cl
 			return fmt.Sprintf("RemoveField(%q)", n), "type-edit", true, p
 		}
 	}
+}
+
+// fieldDefs renders the definitions of a resource's fields, every member of them.
+func fieldDefs(r jsonapi.Resource) string {
+	var parts []string
+
+	attrs := r.Attrs()
+	for _, a := range attrs {
+		parts = append(parts, fmt.Sprintf("attr %+v", a))
+	}
+
+	rels := r.Rels()
+	for _, rel := range rels {
+		parts = append(parts, fmt.Sprintf("rel {FromType:%q FromName:%q ToOne:%v ToType:%q ToName:%q FromOne:%v}", rel.FromType, rel.FromName, rel.ToOne, rel.ToType, rel.ToName, rel.FromOne))
+	}
+
+	sort.Strings(parts)
+
+	return strings.Join(parts, "; ")
 }
 
 // runTypeCopy: Type.Copy yields an equal, independent type.
